@@ -508,7 +508,7 @@ Definition gstep (st : state) (g : ghost) (o : op) : state * ghost :=
              | _, _ => g_dep g
              end)
             (match o, r with
-             | Withdraw _ _ who _ _, [c; paid; _] => if c =? OK then bt_upd (g_wd g) who paid else g_wd g
+             | Withdraw _ _ who _ _ _, [c; paid; _] => if c =? OK then bt_upd (g_wd g) who paid else g_wd g
              | _, _ => g_wd g
              end)).
 
@@ -591,9 +591,9 @@ Proof.
   all: intros a; unfold E; cbn; apply bt_get_upd.
 Qed.
 
-Lemma withdraw_led now st g caller who t amt :
+Lemma withdraw_led now st g caller who t amt pf :
   MarketInv now st -> Led st g ->
-  let '(st', r) := withdraw_balance st caller who t amt in
+  let '(st', r) := withdraw_balance st caller who t amt pf in
   Led st' (mkG (g_gone g ∪ gone_new None st (proposals st')) (g_dep g)
                (match r with [c; paid; _] => if c =? OK then bt_upd (g_wd g) who paid else g_wd g | _ => g_wd g end)).
 Proof.
@@ -616,10 +616,11 @@ Proof.
     - intros a. apply bt_get_upd.
     - intros a. unfold E. cbn. rewrite He'. unfold ind. destruct (a =? who); lia. }
   destruct (0 <? sub) eqn:Es; zb.
-  - rewrite bt_add_ok by lia.
+  - rewrite bt_add_ok by lia. destruct pf as [cf|]; [cbn; now apply (led_unchanged None now)|].
     destruct (balance st <? sub); [cbn; now apply (led_unchanged None now)|].
     cbn [Z.eqb OK]. apply Hfin. intros a. rewrite bt_get_upd. unfold ind. destruct (a =? who); lia.
-  - destruct (balance st <? sub); [cbn; now apply (led_unchanged None now)|].
+  - destruct pf as [cf|]; [cbn; now apply (led_unchanged None now)|].
+    destruct (balance st <? sub); [cbn; now apply (led_unchanged None now)|].
     cbn [Z.eqb OK]. apply Hfin. intros a. assert (sub = 0) as -> by lia. rewrite ind_0. lia.
 Qed.
 
@@ -835,8 +836,8 @@ Proof.
   destruct o; cbn [step op_epoch term_of] in *.
   - pose proof (add_balance_led now st g who t value I Ld) as H.
     destruct (add_balance st who t value) as [st' r]. exact H.
-  - pose proof (withdraw_led now st g caller who t amount I Ld) as H.
-    destruct (withdraw_balance st caller who t amount) as [st' r]. exact H.
+  - pose proof (withdraw_led now st g caller who t amount payout_fails I Ld) as H.
+    destruct (withdraw_balance st caller who t amount payout_fails) as [st' r]. exact H.
   - pose proof (publish_led now st g caller epoch t deals I Ld Hn He) as H.
     destruct (publish st caller epoch t deals) as [st' r]. exact H.
   - pose proof (activate_led now st g caller is_miner epoch sectors I Ld) as H.
@@ -941,7 +942,7 @@ Theorem ghost_records st g o :
        | _, _ => g_dep g
        end)
       (match o, snd (step st o) with
-       | Withdraw _ _ who _ _, [c; paid; _] => if c =? OK then bt_upd (g_wd g) who paid else g_wd g
+       | Withdraw _ _ who _ _ _, [c; paid; _] => if c =? OK then bt_upd (g_wd g) who paid else g_wd g
        | _, _ => g_wd g
        end).
 Proof. destruct o; unfold gstep; destruct (step st _) as [st' r]; reflexivity. Qed.
